@@ -799,6 +799,13 @@ class FDE:
     def _marker_iter(self, it, what):
         """iteration over a marker tuple of the evaluator (a class, a closure, ...): an enum class yields its members in definition
         order; anything else is not an iterable the evaluator models"""
+        if isinstance(it, Obj) and it.f.get('_fde_storage') and isinstance(it.f.get('_children'), dict):
+            # a container node whose built-in storage the rule declares to be in step with its child map (C17): a list node iterates
+            # over its elements in index order, a mapping node over its keys
+            ch = it.f['_children']
+            if 'list' in self.repo.mro(it.cls):
+                return [ch[k] for k in sorted(ch)]
+            return list(ch)
         if isinstance(it, tuple) and it and isinstance(it[0], str) and it[0] in ('class', 'ext', 'kind', 'closure', 'unbound', 'classayns', 'super', 'super_ayns', 'partial') and not hasattr(type(it), '_fields'):
             if it[0] == 'class' and len(it) == 2 and it[1] in self.repo.classes:
                 ci_ = self.repo.classes[it[1]]
@@ -865,6 +872,9 @@ class FDE:
                     d[k] = v
                 except IndexError:
                     raise Raised('IndexError')
+                return
+            if isinstance(d, Obj) and not isinstance(t.slice, ast.Slice) and d.cls in self.repo.classes and self.repo.resolve(d.cls, '__setitem__') is not None:
+                self._apply(Bound(d, self.repo.resolve(d.cls, '__setitem__'), '__setitem__', False), [k, v], {}, t)     # node[key] = value
                 return
             if not isinstance(d, dict):
                 raise Unsupported('subscript store on %r' % (d,))
@@ -1756,6 +1766,9 @@ class FDE:
                 return ExcValue(n, args)
             if n == 'id' and len(args) == 1 and n not in env:
                 return id(args[0])
+            if n == 'dict' and len(args) == 1 and not kwargs and n not in env and isinstance(args[0], ObjDict):
+                o_ = args[0].obj
+                return {k: v for k, v in o_.f.items() if k not in o_.missing and not k.startswith('_fde_')}      # dict(obj.__dict__): a plain copy of the state
             if n == 'dict' and len(args) == 1 and not kwargs and n not in env and isinstance(args[0], Obj):
                 return Opaque('dict(%s)' % args[0].name)
             if n in ('str', 'repr') and len(args) == 1 and n not in env and isinstance(args[0], (Obj, Opaque)):
@@ -1841,11 +1854,25 @@ class FDE:
             if isinstance(target, tuple) and len(target) == 2 and target[0] == 'class':
                 self.effects.append(('instantiate', target[1], tuple(args), tuple(sorted(kwargs.items(), key=lambda kv: kv[0]))))
                 return Opaque('%s(%s)' % (target[1], ', '.join(getattr(a, 'name', repr(a)) for a in args)))
+            if isinstance(target, tuple) and target and target[0] == 'builtinmethod' and target[1].f.get('_fde_storage') and isinstance(target[1].f.get('_children'), dict) \
+                    and target[2] in ('items', 'keys', 'values') and not args and 'dict' in self.repo.mro(target[1].cls):
+                ch_ = target[1].f['_children']
+                return list(ch_.items()) if target[2] == 'items' else (list(ch_) if target[2] == 'keys' else list(ch_.values()))
             if isinstance(target, tuple) and target and target[0] == 'builtinmethod':
                 return Opaque('%s.%s()' % (target[1].name, target[2]))
             if isinstance(target, tuple) and target and target[0] == 'objdictmethod':
                 if target[2] == 'update' and args and isinstance(args[0], ObjDict):
                     self.effects.append(('call', '__dict__.update', target[1].obj, (args[0].obj,), ()))
+                    return None
+                if target[2] == 'copy' and not args and not kwargs:
+                    o_ = target[1].obj
+                    return {k: v for k, v in o_.f.items() if k not in o_.missing and not k.startswith('_fde_')}     # a plain dict: the state of the object
+                if target[2] == 'update' and len(args) == 1 and isinstance(args[0], dict) and not kwargs and all(isinstance(k, str) for k in args[0]):
+                    o_ = target[1].obj
+                    for k, v in args[0].items():
+                        o_.f[k] = v
+                        o_.missing.discard(k)
+                        self.effects.append(('setattr', o_, k, v))
                     return None
                 raise Unsupported('__dict__.%s' % target[2])
             if isinstance(target, Bound) and target.fi is not None and target.fi.is_classmethod:
